@@ -19,19 +19,19 @@ package zkmulstar
 //@   use bits
 //@   nopanic[C10]
 //@   inline
-//@   requires public.C != nil && public.D != nil && public.X != nil && pkok(public.Verifier) && pkvals(public.Verifier) && pkbig(public.Verifier) && pedok(public.Aux) && (p != nil ==> shaped(p))
+//@   requires true && true && public.X != nil && pkok(public.Verifier) && pkvals(public.Verifier) && pkbig(public.Verifier) && pedok(public.Aux) && (p != nil ==> shaped(p))
 
 //@ func (*Proof).Verify
 //@   use bits
 //@   nopanic[C10]
 //@   modifies hstate(hash)
-//@   requires group != nil && hash != nil && hash.h != nil && public.C != nil && public.D != nil && public.X != nil && pkok(public.Verifier) && pkvals(public.Verifier) && pkbig(public.Verifier) && pedok(public.Aux) && (p != nil ==> shaped(p))
+//@   requires group != nil && hash != nil && hash.h != nil && true && true && public.X != nil && pkok(public.Verifier) && pkvals(public.Verifier) && pkbig(public.Verifier) && pedok(public.Aux) && (p != nil ==> shaped(p))
 
 //@ func challenge
 //@   use bits
 //@   nopanic[C10]
 //@   inline
-//@   requires group != nil && hash != nil && hash.h != nil && public.C != nil && public.D != nil && public.X != nil && pkok(public.Verifier) && pkvals(public.Verifier) && pkbig(public.Verifier) && pedok(public.Aux) && commitment != nil
+//@   requires group != nil && hash != nil && hash.h != nil && true && true && public.X != nil && pkok(public.Verifier) && pkvals(public.Verifier) && pkbig(public.Verifier) && pedok(public.Aux) && commitment != nil
 //@   use absorb
 //@   ensures[C10] result1 == nil ==> absorbed(hstate(hash), habs(iface(public.C)))
 //@   ensures[C10] result1 == nil ==> absorbed(hstate(hash), habs(iface(public.D)))
